@@ -264,6 +264,9 @@ func TestCheck(t *testing.T) {
 				} else if r.IntN(5) == 0 {
 					v = 0 // an explicit set may take the estimate to 0
 					rt.Count("explicit_sets_to_zero", 1)
+				} else if r.IntN(6) == 0 {
+					v = -1 - r.IntN(5) // or below: whatever the limit makes of it, the listeners are told what it then reports
+					rt.Count("explicit_sets_to_a_negative_value", 1)
 				}
 				settable.SetLimit(v)
 				desc = rt.J{"op": "SetLimit", "v": v}
